@@ -18,8 +18,9 @@ func init() {
 			"dynamic programming on the harness' description; cyclic - the call returns with 0 <= depth <= node count; caps 0..depth+2 - " +
 			"(depth, nil) or (cap, ErrMaximalNetDepthExceeded); after every query all traversal marks are clear and the next uncapped query " +
 			"equals the answer of a fresh instance; mixed query sequences on one instance. evaluations = depth queries. A network is " +
-			"non-trivial if its depth is >= 3 or it is cyclic; distinct by topology fingerprint.",
-		Assumptions: []string{"non-modular networks with at least one hidden node", "sparse graphs of at most 14 nodes (the library's search is exponential on dense DAGs)",
+			"non-trivial if its depth is >= 3 or it is cyclic; distinct by topology fingerprint. One network in forty is a chain of 30-330 hidden " +
+			"neurons with one to six forward shortcuts; every 64th case also queries a bare chain of 1030-1150 hidden neurons.",
+		Assumptions: []string{"non-modular networks with at least one hidden node", "sparse graphs of at most 14 nodes, or long chains with a handful of shortcuts (the library's search is exponential on dense DAGs)",
 			"non-termination shows as the 64 MB stack limit of the child process or the watchdog"},
 		Cases: func(tier string) int {
 			if tier == "quick" {
